@@ -16,7 +16,8 @@ import (
 
 // World is one emulator plus the scripted environment of a scenario.
 type World struct {
-	E *vh.Emu
+	E  *vh.Emu
+	Hk *HookCtl // pause-point controller (every arrival is logged)
 
 	mu      sync.Mutex
 	parties map[string]*vh.Party // by process name
@@ -31,6 +32,7 @@ func NewWorld(cfg vh.Config) (*World, error) {
 		return nil, err
 	}
 	w := &World{E: e, parties: map[string]*vh.Party{}}
+	w.Hk = NewHookCtl(e.Log)
 	e.Sup.Plan = func(req *supvmodel.ExecRequest, p *vh.Proc) vh.ExecPlan {
 		if p.Role == "runtime" {
 			if w.RtPlan != nil {
@@ -47,6 +49,7 @@ func NewWorld(cfg vh.Config) (*World, error) {
 }
 
 func (w *World) Close() {
+	w.Hk.ReleaseAll()
 	verifhook.Set(nil)
 	w.E.Close()
 }
@@ -291,6 +294,7 @@ func NewHookCtl(l *vh.Log) *HookCtl {
 }
 
 func (h *HookCtl) point(name string) {
+	h.log.Add(vh.Event{Src: "hook", Kind: "hit", Op: name})
 	h.mu.Lock()
 	h.arrived[name]++
 	hd := h.holds[name]
@@ -489,3 +493,108 @@ func maxGen(w *World) int {
 	}
 	return g
 }
+
+// staleRegisterLeak detects the recorded defect "in-flight register request of
+// a killed process is served in a later generation": a register call that was
+// never acknowledged to its (meanwhile dead) sender, and a later process
+// registering under the same name being refused with InvalidExtensionState.
+func staleRegisterLeak(w *World) bool {
+	evs := w.E.Log.Snapshot()
+	unacked := map[string]int64{} // name -> seq of the unacknowledged call
+	calls := map[int64]vh.Event{}
+	for _, e := range evs {
+		if e.Kind == "call" && e.Op == "register" {
+			calls[e.Seq] = e
+		}
+		if e.Kind == "ret" && e.Op == "register" {
+			cl := calls[e.Ref]
+			if e.Status == 0 {
+				unacked[cl.Extra["name"]] = cl.Seq
+			} else if e.Status == 403 && e.Etype == "Extension.InvalidExtensionState" {
+				if s, ok := unacked[cl.Extra["name"]]; ok && s < cl.Seq && cl.Src != calls[s].Src {
+					return true
+				}
+			}
+		}
+	}
+	// the refusal may also be observed before the stale call's cancellation is logged
+	for _, e := range evs {
+		if e.Kind == "ret" && e.Op == "register" && e.Status == 403 && e.Etype == "Extension.InvalidExtensionState" {
+			cl := calls[e.Ref]
+			for s, other := range calls {
+				if s < cl.Seq && other.Extra["name"] == cl.Extra["name"] && other.Src != cl.Src {
+					acked := false
+					for _, r := range evs {
+						if r.Kind == "ret" && r.Ref == s && r.Status != 0 {
+							acked = true
+						}
+					}
+					if !acked {
+						return true
+					}
+				}
+			}
+		}
+	}
+	return false
+}
+
+// quiesce waits until every response/error call issued by a party has its
+// ret record (the client side has caught up), or the timeout expires.
+func quiesce(w *World, max time.Duration) {
+	dl := time.Now().Add(max)
+	for time.Now().Before(dl) {
+		open := map[int64]bool{}
+		for _, e := range w.E.Log.Snapshot() {
+			if e.Kind == "call" && (e.Op == "response" || e.Op == "error") {
+				open[e.Seq] = true
+			}
+			if e.Kind == "ret" && e.Ref != 0 {
+				delete(open, e.Ref)
+			}
+		}
+		if len(open) == 0 {
+			return
+		}
+		time.Sleep(300 * time.Microsecond)
+	}
+}
+
+// staleNextLeak detects the second form of the recorded defect "an in-flight
+// request of a killed process is applied to a later generation": the FIRST
+// next of a freshly started runtime is refused with ErrGateIntegrity (somebody
+// else already arrived at this generation's init barrier) while an older
+// runtime process died with its own first next still unanswered.
+func staleNextLeak(w *World) bool {
+	evs := w.E.Log.Snapshot()
+	firstNext := map[string]vh.Event{} // src -> first next call
+	rets := map[int64]vh.Event{}
+	for _, e := range evs {
+		if e.Kind == "call" && e.Op == "next" && strings.HasPrefix(e.Src, "rt:") {
+			if _, ok := firstNext[e.Src]; !ok {
+				firstNext[e.Src] = e
+			}
+		}
+		if e.Kind == "ret" && e.Op == "next" {
+			rets[e.Ref] = e
+		}
+	}
+	for src, cl := range firstNext {
+		r, ok := rets[cl.Seq]
+		if !ok || r.Status != 403 || !strings.Contains(r.Extra["body"], "ErrGateIntegrity") {
+			continue
+		}
+		for osrc, ocl := range firstNext {
+			if osrc == src || ocl.Seq > cl.Seq {
+				continue
+			}
+			or, ok := rets[ocl.Seq]
+			if !ok || or.Status == 0 {
+				return true // an older runtime's first next was never answered
+			}
+		}
+	}
+	return false
+}
+
+func staleRequestLeak(w *World) bool { return staleRegisterLeak(w) || staleNextLeak(w) }
